@@ -92,9 +92,9 @@ theorem addSegment_currentStart (c : Comp) (g : Seg) : (c.addSegment g).1.curren
       · rfl
       · split
         · show Comp.currentStart { c with segs := setLast c.segs g } = _
-          rw [hl, setLast_snoc, currentStart_snoc, hst]
+          rw [hl, setLast_concat, currentStart_snoc, hst]
         · show Comp.currentStart { c with segs := setLast c.segs _ } = _
-          rw [hl, setLast_snoc, currentStart_snoc]
+          rw [hl, setLast_concat, currentStart_snoc]
           exact (currentStart_of_getLast? hlast).symm
 
 theorem addSegment_loopInv {c : Comp} (h : LoopInv c) {g : Seg} (hg : SegGeo g) (hb : g.stop ≤ c.input.length) :
@@ -136,7 +136,7 @@ theorem forward_currentStart (c : Comp) : c.forward.1.currentStart = endOf c.seg
 
 theorem setLast_of_getLast? {l : List Seg} {b : Seg} (h : l.getLast? = some b) (g : Seg) :
     setLast l g = l.dropLast ++ [g] := by
-  rw [eq_snoc_of_getLast? h, setLast_snoc, List.dropLast_concat]
+  rw [eq_snoc_of_getLast? h, setLast_concat, List.dropLast_concat]
 
 /-- `AddSegment` of a segment that starts at the current start and ends after the current end: it becomes
 the last segment -/
